@@ -68,9 +68,9 @@ that does not exist is `NoSuchBucket`, not `NoSuchKey`; 0f31b61 delete_objects o
 4609ab3 operations on an upload that does not exist answer `NoSuchUpload`;
 205d9a8 upload_part and upload_part_copy refuse a part number outside 1..10000;
 47e9b00 complete_multipart_upload replaces the metadata and the checksum record of the object it replaces;
-aa68bb7 copy_object gives the destination the metadata and the checksum record of the source, or none;
-7d30be5 delete_objects reports every requested key as deleted and accepts a key named twice;
-1d762a7 list_parts returns the parts in ascending part-number order;
+8faafe7 copy_object gives the destination the metadata and the checksum record of the source, or none;
+c55c267 delete_objects reports every requested key as deleted and accepts a key named twice;
+764f144 list_parts returns the parts in ascending part-number order;
 b89afe2 ranged reads: covered for all ranges by `C18_get_refines_partial` and `C18_range_check`, the kernel cannot
 evaluate the decimal formatter of `Content-Range`) -/
 
